@@ -61,6 +61,38 @@ impl Clone for SourcedValue {
 }
 """
 
+VALUE_MODEL = r"""
+// ---- A-lock model: Arc<Mutex<T>> is a transparent wrapper (locking always succeeds, no aliasing claim)
+pub struct Mutex<T>(pub T);
+pub struct Arc<T>(pub T);
+impl<T> Mutex<T> { pub fn new(t: T) -> (r: Self) ensures r.0 == t { Mutex(t) } }
+impl<T> Arc<T> { pub fn new(t: T) -> (r: Self) ensures r.0 == t { Arc(t) } }
+macro_rules! lock_deref {
+    ( $x:ident ) => { $x.0.0 };
+}
+pub type Str = Vec<u8>;
+pub type List = Vec<SourcedValue>;
+pub type ListRef = Arc<Mutex<List>>;
+// D3: opaque
+#[verifier::external_body]
+pub struct ObjectRef { _p: () }
+#[verifier::external_body]
+pub struct BuiltinFunc { _p: () }
+
+impl Clone for Value {
+    #[verifier::external_body]
+    fn clone(&self) -> (r: Self) ensures r == *self { unimplemented!() }
+}
+impl Clone for SourcedValue {
+    #[verifier::external_body]
+    fn clone(&self) -> (r: Self) ensures r == *self { unimplemented!() }
+}
+// std: <[T]>::to_vec clones every element
+pub assume_specification<T: Clone> [<[T]>::to_vec] (s: &[T]) -> (r: Vec<T>)
+    ensures r@.len() == s@.len(), forall|i: int| 0 <= i < s@.len() ==> call_ensures(T::clone, (&s@[i],), #[trigger] r@[i]);
+
+"""
+
 CLONE_EXPR = r"""
 // D5: `.clone()` on the tuple alias `Expr` / on Vec<Expr> (Verus: "built-in instance Misc")
 #[verifier::external_body]
@@ -132,3 +164,27 @@ def annotate_closure(fn_text, name, params, ret, ensures, label):
         raise Undecided(f"closure `{name}` not found exactly once ({label})")
     new = f"let {name} = |{params}| -> (r: {ret})\n        ensures {ensures}\n    {{"
     return fn_text[:m.start()] + new + fn_text[m.end():]
+
+
+def value_items(b, read):
+    """enum Value, struct SourcedValue, struct Func verbatim from src/eval/value.rs"""
+    out = []
+    for kind, name in [("enum", "Value"), ("struct", "SourcedValue"), ("struct", "Func")]:
+        out.append(copy_item(b, read, "src/eval/value.rs", kind, name))
+    return "// ---- verbatim from src/eval/value.rs\n" + "\n".join(out)
+
+
+def value_ctors(b, read, names):
+    import extract as _e
+    ens = {"new_val_ref_with_no_source": "r == (SourcedValue{v, source: None})",
+           "new_val_ref_with_source": "r == (SourcedValue{v, source: Some(source)})",
+           "new_null": "r == (SourcedValue{v: Value::Null, source: None})",
+           "new_bool": "r == (SourcedValue{v: Value::Bool(b), source: None})",
+           "new_int": "r == (SourcedValue{v: Value::Int(n), source: None})",
+           "new_str": "r == (SourcedValue{v: Value::Str(s), source: None})",
+           "new_list": "r == (SourcedValue{v: Value::List(Arc(Mutex(list))), source: None})"}
+    out = []
+    for n in names:
+        t = copy_item(b, read, "src/eval/value.rs", "fn", n)
+        out.append(_e.annotate_fn(t, spec=f"\n    ensures {ens[n]},\n"))
+    return "pub mod value {\n    use super::*;\n// ---- verbatim from src/eval/value.rs\n" + "\n".join(out) + "\n}"
